@@ -278,7 +278,10 @@ def k_seq():
     add('h:empty', refcodec.enc_header_frame(0, {}, 1))
     add('h:full', refcodec.enc_header_frame(
         2**32, {'content_type': 'AMQP', 'headers': {'k': '\xce'},
-                'delivery_mode': 2, 'timestamp': A.dt(1)}, 3))
+                'delivery_mode': 2, 'timestamp': A.dt(1)}, 2))
+    # a content header of a foreign class on the channel of the Publish
+    add('h:class50', refcodec.enc_header_frame(
+        7, {'content_type': 'x'}, 2, class_id=50))
     add('b:ce', refcodec.enc_body_frame(b'\xce', 1))
     add('b:hb', refcodec.enc_body_frame(refcodec.HEARTBEAT, 1))
     add('b:amqp', refcodec.enc_body_frame(b'AMQP\x00\x00\x09\x01', 7))
@@ -512,6 +515,73 @@ _BAD_FRAMES = [_bad_header(), _bad_method(),b'\x01\x00\x01\x00\x00\x00\x05\x00\x
                b'\x00\x00\x00\xce']
 
 
+def _mid_failures():
+    """Inputs that are refused *in the middle* of a container, after earlier
+    members of the same container (and of the enclosing ones) were handled:
+    encode side as Python values, decode side as frames."""
+    import datetime
+    import decimal
+    bads = [b'bytes', 2 ** 64,
+            datetime.datetime(1969, 1, 1, tzinfo=datetime.timezone.utc)]
+    enc = []
+    for i, bad in enumerate(bads):
+        enc += [
+            {'a': 1, 'b': 'stale-b', 'z': bad},
+            {'a': [1, 'stale-el', bad], 'b': 2},
+            {'a': 'stale-a', 'm': {'in': 'stale-in', 'z': bad}},
+            {'a': [['stale-deep', i, bad]], 'k': {'l': [{'p': 1, 'q': bad}]}},
+            {'first': bad, 'later': 'x'},
+        ]
+    dec = []
+    for tail in (b'\x01z?', b'\x01zA\x00\x00\x00\x07b\x01b\x02?\x00\x00',
+                 b'\x01zF\x00\x00\x00\x09\x01pb\x01\x01q?\x00\x00',
+                 b'\x01zA\x00\x00\x00\x0cA\x00\x00\x00\x07b\x01b\x02?\x00'
+                 b'\x00', b'\x01zS\x00\x00\x00\x02\xff\xfe\x01yT\xff\xff'
+                 b'\xff\xff\xff\xff\xff\xff'):
+        table = b'\x05staleS\x00\x00\x00\x05stale\x01kb\x05' + tail
+        args = (b'\x00\x00' + b'\x07stale-q' + b'\x1f' +
+                len(table).to_bytes(4, 'big') + table)
+        payload = b'\x00\x32\x00\x0a' + args
+        dec.append(b'\x01\x00\x01' + len(payload).to_bytes(4, 'big') +
+                   payload + b'\xce')
+        props = (b'\xa0\x00' + b'\x0aevil/thing' +
+                 len(table).to_bytes(4, 'big') + table)
+        payload = b'\x00\x3c\x00\x00' + b'\x00' * 7 + b'\x09' + props
+        dec.append(b'\x02\x00\x01' + len(payload).to_bytes(4, 'big') +
+                   payload + b'\xce')
+    return enc, dec
+
+
+_MID = []
+
+
+def disturb_mid():
+    """Refused encodes and failed decodes that stop in the middle of a
+    (nested) container - run, exceptions ignored."""
+    import pamqp.commands as c
+    import pamqp.encode as e
+    import pamqp.frame as f
+    import pamqp.header as h
+    if not _MID:
+        _MID.extend(_mid_failures())
+    enc, dec = _MID
+    for t in enc:
+        for attempt in (
+                lambda: f.marshal(c.Queue.Declare(queue='q', arguments=t), 1),
+                lambda: f.marshal(h.ContentHeader(0, 1, c.Basic.Properties(
+                    app_id='stale', headers=t)), 1),
+                lambda: e.field_array([0, 'stale', t])):
+            try:
+                attempt()
+            except Exception:  # noqa
+                pass
+    for data in dec:
+        try:
+            f.unmarshal(data)
+        except Exception:  # noqa
+            pass
+
+
 DISTURBED = False     # set by a check right after disturb(); see case_mark
 
 
@@ -554,6 +624,7 @@ def disturb():
             attempt()
         except Exception:  # noqa
             pass
+    disturb_mid()
 
 
 # ---------------------------------------------------------------------------
